@@ -2,9 +2,9 @@ from .csvcommon import *
 ID = "C13"
 # CSVStorage methods against the I/O effect model (write-side faults), plus the database-level read-fault clauses:
 # every loop over a storage and Index.build's iteration have an exceptional edge 'ReadFault' at an arbitrary row
-FUNCTIONS = CSV_FUNCS + [IX + "build"] + [TF + f for f in ("reindex", "count", "contains", "_remove_helper", "remove", "_update_helper", "update", "_insert_helper")]
+FUNCTIONS = CSV_FUNCS + [IX + "build"] + [TF + f for f in ("reindex", "count", "contains", "_remove_helper", "remove", "remove_all", "drop_measurement", "_reset_database", "_update_helper", "update", "update_all", "_insert_helper", "insert", "insert_multiple")]
 ASSUMED = []
 STANDIN = "standins/csvio.py"
 TRUSTED = IO_TRUSTED + [STORAGE_ASSUMED, QUERY_ASSUMED,
-                        "read faults at the database level are modelled as an exception ('ReadFault') that iterating a storage may raise at any row, before the row is yielded; CSVStorage.__iter__ itself (seek, csv.reader, fromisoformat of undecodable rows) is not under contract"]
+                        "write faults at the database level are modelled as an exception ('WriteFault') that Storage.append / _swap_temp_with_primary / reset may raise, leaving old rows + a prefix of the new ones / old or new contents / old or empty contents (temporary-storage init and cleanup failures are covered at CSVStorage level only)", "read faults at the database level are modelled as an exception ('ReadFault') that iterating a storage may raise at any row, before the row is yielded; CSVStorage.__iter__ itself (seek, csv.reader, fromisoformat of undecodable rows) is not under contract"]
 ASSUMPTIONS = ["A-single: one process, one TinyFlux object per file", "A-buf: one csv row fits the text/binary buffers, so bytes reach the disk only at flush/seek/close"]
